@@ -36,7 +36,9 @@ class ReduceFn:
             axis = (axis,)
         if not keepdims:
             raise Unsupported("reduction kernel without keepdims")
-        return SymBlock(tuple(1 if i in axis else s for i, s in enumerate(x.shape)), self.out_dtype or x.dtype, None, f"{self.label}(...)")
+        out = SymBlock(tuple(1 if i in axis else s for i, s in enumerate(x.shape)), self.out_dtype or x.dtype, None, f"{self.label}(...)")
+        out.agg = getattr(x, "agg", None)  # a reduced chunk aggregates exactly the elements its argument aggregates
+        return out
 
 
 def partial_reduce_loop(c, kind):
@@ -58,12 +60,32 @@ def partial_reduce_loop(c, kind):
         rf = fr.locals.get("reduce_func")
         return tuple(shp), (getattr(rf, "out_dtype", None) or b0.dtype)
 
+    def agg_after(interp, fr, j):
+        """single-axis reductions: after folding j blocks the result aggregates the union of their boxes — the interval
+        from the first block's start to the j-th block's end along the axis, the blocks' common box elsewhere"""
+        arrays = fr.locals["arrays"]
+        axis = fr.locals["axis"]
+        if kind != "reduce" or len(axis) != 1:
+            return None
+        b0 = arrays.get(interp, 0)
+        g0 = getattr(b0, "agg", None)
+        if g0 is None:
+            return None
+        gl = getattr(arrays.get(interp, j - 1), "agg", None)
+        if gl is None:
+            return None
+        ax = axis[0]
+        box = tuple((g0["box"][i][0], gl["box"][i][1]) if i == ax else g0["box"][i] for i in range(len(g0["box"])))
+        return dict(src=g0["src"], box=box, cond=[])
+
     def havoc(interp, fr, j):
         if interp.truth(j == 0):
             fr.locals["result"] = None
         else:
             shp, dt = shape_after(interp, fr, j)
-            fr.locals["result"] = SymBlock(shp, dt, None, "partial")
+            blk = SymBlock(shp, dt, None, "partial")
+            blk.agg = agg_after(interp, fr, j)
+            fr.locals["result"] = blk
 
     def holds(interp, fr, j):
         res = fr.locals.get("result")
@@ -75,6 +97,19 @@ def partial_reduce_loop(c, kind):
         yield "rank", len(res.shape) == len(shp)
         for i, (a, b) in enumerate(zip(res.shape, shp)):
             yield f"extent[{i}]", a == b
+        want = agg_after(interp, fr, j)
+        if want is not None:
+            got = getattr(res, "agg", None)
+            if got is None or got["src"] != want["src"] or len(got["box"]) != len(want["box"]):
+                yield "aggregates-the-first-j-blocks-each-once", False
+            else:
+                import z3 as _z3
+                from pyvc.sym import tz as _tz
+
+                terms = list(got["cond"])
+                for (l1, h1), (l2, h2) in zip(got["box"], want["box"]):
+                    terms += [_tz(l1) == _tz(l2), _tz(h1) == _tz(h2)]
+                yield "aggregates-the-first-j-blocks-each-once", _z3.And(*terms)
 
     return ForInvariant("_partial_reduce.fold", havoc, holds)
 
@@ -166,11 +201,13 @@ class PartialReduceBlock(FuncSpec):
 class PartialReduce(ArrayOpSpec):
     """partial_reduce(x, func, initial_func, split_every, dtype, combine_sizes): one round of a tree reduction.
     Discharged through the universal contract with the real key function (keys in range for every group) and the
-    real block function `_partial_reduce` (via its loop invariant)."""
+    real block function `_partial_reduce` (via its loop invariant).  Single-axis reductions carry *aggregation
+    provenance*: the block a task returns aggregates exactly the elements of its group of input blocks — in order,
+    each once (concatenated pieces must be adjacent) — and the groups tile the axis (GB.agg)."""
 
     target = f"{OPS}:partial_reduce"
     props = ("C01", "C12", "C17", "C03")
-    quick_props = ("C12", "C03")
+    quick_props = ("C12", "C03", "C01")
 
     def configs(self, tier):
         out = []
@@ -204,7 +241,44 @@ class PartialReduce(ArrayOpSpec):
                       combine_sizes={ax: sizes})
             return (x,), kw
         kw = dict(func=ReduceFn("reduce"), initial_func=None, split_every=split, dtype=x.dtype)
+        if len(axes) == 1:
+            c.check_result_block = self._group_clause(c, x, axes[0], split[axes[0]])
         return (x,), kw
+
+    @staticmethod
+    def _group_clause(c, x, ax, s_):
+        """C01 for one round of a single-axis reduction: the block a task returns aggregates *exactly* the elements of
+        its group — input blocks oc*S .. min((oc+1)*S, nb)-1 along the axis, in order, each once — and the groups tile
+        the axis."""
+        import z3
+
+        from pyvc.sym import tz
+
+        def hook(it, rec, tag, j, blk):
+            ctx = it.ctx
+            oc = rec.oc
+            n, cs, nb = x.shape[ax], x.chunksize[ax], x.numblocks[ax]
+            lo = oc[ax] * s_ * cs
+            hi = c.min((oc[ax] + 1) * s_ * cs, n)
+            g = getattr(blk, "agg", None)
+            if g is None or g["src"] != x.name or len(g["box"]) != x.ndim:
+                ctx.oblige(f"{tag}.agg[out{j}]:aggregates-exactly-its-group", False, kind="ensures", detail="aggregation provenance lost")
+                return
+            terms = list(g["cond"]) + [tz(g["box"][ax][0]) == tz(lo), tz(g["box"][ax][1]) == tz(hi)]
+            ctx.oblige(f"{tag}.agg[out{j}]:aggregates-exactly-its-group", z3.And(*terms), kind="ensures")
+            for i in range(x.ndim):
+                if i != ax:
+                    r0 = rec.out_regions[j][i][0]
+                    ctx.oblige(f"{tag}.agg[out{j}]:other-axes-in-place[{i}]",
+                               z3.And(tz(g["box"][i][0]) == tz(r0), tz(g["box"][i][1]) == tz(r0 + rec.out_regions[j][i][1])), kind="ensures")
+            # the groups tile [0, n): the first starts at 0, consecutive groups are adjacent, the last ends at n
+            nbo = (nb + s_ - 1) // s_
+            ctx.oblige(f"{tag}.agg:groups-tile-the-axis", z3.And(
+                z3.Implies(tz(oc[ax]) == 0, tz(lo) == 0),
+                z3.Implies(tz(oc[ax]) + 1 < tz(nbo), tz(hi) == tz((oc[ax] + 1) * s_ * cs)),
+                z3.Implies(tz(oc[ax]) + 1 == tz(nbo), tz(hi) == tz(n))), kind="ensures")
+
+        return hook
 
     def ensures(self, c, a, k, res):
         x = a[0]
